@@ -2,6 +2,7 @@ package sweep
 
 import (
 	"fmt"
+	"hash/crc32"
 	"math/rand"
 	"strings"
 	"sync"
@@ -184,12 +185,21 @@ func cleanStop(run *harness.Run, key string, e *Env, r *rand.Rand, report func(k
 	linger := []time.Duration{0, e.C.BatchTicker / 2, 2 * e.C.BatchTicker, e.C.KeepAlive + 5*time.Millisecond}[r.Intn(4)]
 	srv := newServer()
 	defer srv.Close()
-	l1, why := e.runOnStop(r, srv, nil, 0, true, stopAt, linger)
+	// one schedule in three ends because the stream ends (EOF on the reader), not by cancellation
+	eos := crc32.ChecksumIEEE([]byte(fmt.Sprintf("%s/%d/%d", key, stopAt, linger)))%3 == 0
+	l1, why := e.runOnStop(r, srv, nil, 0, true, stopAt, linger, eos)
 	if l1 == nil {
 		run.Inconclusive("%s: orderly stop at %d: %s", key, stopAt, why)
 		return
 	}
 	crash := fmt.Sprintf("orderly stop after the source delivered up to %d (%s, group %d) and stayed silent for %v", stopAt, cmds[idx].Kind, cmds[idx].Group, linger)
+	if eos {
+		crash = fmt.Sprintf("the stream ended by itself (EOF) after the source had delivered up to %d (%s, group %d) and stayed silent for %v", stopAt, cmds[idx].Kind, cmds[idx].Group, linger)
+		run.Count("runs_ended_by_end_of_stream", 1)
+		if cmds[idx].Group >= 0 && cmds[idx].Kind != gen.KExec {
+			run.Count("runs_ended_by_end_of_stream_inside_a_source_transaction", 1)
+		}
+	}
 	run.Eval(1)
 	run.Count("orderly_stops", 1)
 	if cmds[idx].Group >= 0 && cmds[idx].Kind != gen.KExec {
